@@ -633,9 +633,12 @@ class ListItem(BlockToken):
             if blanks > 1:
                 parse_buffer = tokenizer.ParseBuffer()
                 parse_buffer.loose = True
-                # a thematic break takes precedence over a list item ("* * *")
+                # a thematic break takes precedence over a list item ("* * *"),
+                # and a marker of another type starts another list
                 if next_line is not None and not ThematicBreak.start(next_line):
-                    next_marker = cls.parse_marker(next_line)
+                    marker_info = cls.parse_marker(next_line)
+                    if marker_info is not None and List.same_marker_type(leader, marker_info[2]):
+                        next_marker = marker_info
                 return (parse_buffer, indentation, prepend, leader, start_line), next_marker
         else:
             line_buffer.append(content)
